@@ -6,7 +6,7 @@ cp $SD/patch.diff $SD/demo_test.go $D/
 python3 - "$SD/meta.json" "$D/meta.json" "$DET" "$BY" "$CONF" <<'P'
 import json,sys
 m=json.load(open(sys.argv[1]))
-m['source']='independent sub-agent given only the property text and a scratch worktree (round 2)'
+m['source']='independent sub-agent given only the property text and a scratch worktree (round 4)'
 m['check_run']='git -C /repo apply patch.diff; /verif/bin/govc check --property %s --tier quick; git -C /repo apply -R patch.diff' % m['property']
 m['detected']= sys.argv[3]=='true'
 m['detected_by']=[x for x in sys.argv[4].split('|') if x]
